@@ -311,7 +311,12 @@ def main(argv=sys.argv):
             #result is unique for this source directory
             out_fn = sanitize_path_comp(out_fmt % meta)
             if out_fn in generated_outs:
-                out_fn += '-%03d' % out_idx
+                base_fn = out_fn
+                sfx_idx = out_idx
+                out_fn = base_fn + '-%03d' % sfx_idx
+                while out_fn in generated_outs:
+                    sfx_idx += 1
+                    out_fn = base_fn + '-%03d' % sfx_idx
             generated_outs.add(out_fn)
             out_idx += 1
             out_fn = out_fn + args.output_ext
